@@ -43,19 +43,20 @@ def coverageOK (es : List Entry) (gs out : List Range) : Bool :=
 /-- `IsRenewAck` must be set exactly when a renew batch is in the request. -/
 def renewOK (out : List Range) (hasRenew : Bool) : Bool := hasRenew == out.any (·.ty == 4)
 
-/-- Inputs the client can hold for one partition: Kafka offsets, well-formed pairwise disjoint gap
-ranges of type gap (0) or release (2), no decided user entry inside a gap range. -/
-def disjointFrom (g : Range) (gs : List Range) : Bool :=
-  gs.all (fun g' => decide (g.last < g'.first) || decide (g'.last < g.first))
+/-- Inputs the client can hold for one partition: Kafka offsets, well-formed gap ranges of type gap (0) or release
+(2) that may repeat or overlap (a requeued gap and the gap of a re-acquisition) as long as overlapping ones have the
+same type, no decided user entry inside a gap range. -/
+def agreeWith (g : Range) (gs : List Range) : Bool :=
+  gs.all (fun g' => decide (g.last < g'.first) || decide (g'.last < g.first) || g.ty == g'.ty)
 
-def gapsDisjoint : List Range → Bool
+def gapsAgree : List Range → Bool
   | [] => true
-  | g :: gs => disjointFrom g gs && gapsDisjoint gs
+  | g :: gs => agreeWith g gs && gapsAgree gs
 
 def wfInput (es : List Entry) (gs : List Range) : Bool :=
   es.all (fun e => decide (0 ≤ e.offset)) &&
   gs.all (fun g => decide (0 ≤ g.first) && decide (g.first ≤ g.last) && (g.ty == 0 || g.ty == 2)) &&
-  gapsDisjoint gs &&
+  gapsAgree gs &&
   es.all (fun e => e.status == 0 || gs.all (fun g => !contains g e.offset))
 
 /-- The property for one partition's batch list. -/
